@@ -568,8 +568,14 @@ structure MReader where
   buf : Nat              -- `bytes.NewReader(b.Bytes())`
 deriving Repr, DecidableEq, Inhabited
 
+/-- a `new(bytes.Buffer)`; `owner = some w` (ghost): still private to writer `w`. -/
+structure MBuf where
+  data : Bytes
+  owner : Option Nat
+deriving Repr, DecidableEq, Inhabited
+
 structure MState where
-  bufs : List Bytes := []                       -- every `new(bytes.Buffer)`; garbage collected, never recycled
+  bufs : List MBuf := []                        -- every `new(bytes.Buffer)`; garbage collected, never recycled
   membuf : Nat → Option Nat := fun _ => none     -- `mc.Membuf`
   writers : List MWriter := []
   readers : List MReader := []
@@ -577,7 +583,7 @@ structure MState where
 
 /-- `Add`: `b := new(bytes.Buffer)`. -/
 def MState.add (s : MState) (k : Nat) : Option MState :=
-  some { s with bufs := s.bufs ++ [[]],
+  some { s with bufs := s.bufs ++ [{ data := [], owner := some s.writers.length }],
                 writers := s.writers ++ [{ key := k, buf := s.bufs.length, opened := true, written := [] }] }
 
 /-- `Write`. -/
@@ -586,7 +592,7 @@ def MState.write (s : MState) (w : Nat) (p : Bytes) : Option MState :=
   | some wr =>
     if wr.opened then
       match s.bufs[wr.buf]? with
-      | some d => some { s with bufs := s.bufs.set wr.buf (d ++ p),
+      | some d => some { s with bufs := s.bufs.set wr.buf { d with data := d.data ++ p },
                                 writers := s.writers.set w { wr with written := wr.written ++ p } }
       | none => none
     else none
@@ -597,9 +603,13 @@ def MState.commit (s : MState) (w : Nat) : Option MState :=
   match s.writers[w]? with
   | some wr =>
     if wr.opened then
-      some { s with membuf := fun k => if k = wr.key then some wr.buf else s.membuf k,
-                    writers := s.writers.set w { wr with opened := false },
-                    committed := addCommitted s.committed wr.key wr.written }
+      match s.bufs[wr.buf]? with
+      | some d =>
+        some { s with membuf := fun k => if k = wr.key then some wr.buf else s.membuf k,
+                      bufs := s.bufs.set wr.buf { d with owner := none },
+                      writers := s.writers.set w { wr with opened := false },
+                      committed := addCommitted s.committed wr.key wr.written }
+      | none => none
     else none
   | none => none
 
@@ -634,7 +644,7 @@ def MState.step (s : MState) (a : MStep) : MState := (s.step? a).getD s
 
 def MState.run (s : MState) (steps : List MStep) : MState := steps.foldl MState.step s
 
-def MState.visible (s : MState) (rd : MReader) : Option Bytes := s.bufs[rd.buf]?
+def MState.visible (s : MState) (rd : MReader) : Option Bytes := s.bufs[rd.buf]?.map (·.data)
 
 end MemCache
 
